@@ -333,37 +333,6 @@ def parseAll {α} (p : Str → Res α) (args : List Str) : Option (List α) :=
       | _ => none
     | none => none)
 
-def masterCall (b : MasterPlaylistBuilder) (call : Str) : Option MasterPlaylistBuilder :=
-  match tokens call with
-  | [] => none
-  | name :: args =>
-    if name == "ind".toList then
-      match args with
-      | [a] => (bool01? a).map fun v => { b with has_independent_segments := some v }
-      | _ => none
-    else if name == "start".toList then
-      match args with
-      | [a, c] => (startOf? a c).map fun s => { b with start := some (some s) }
-      | _ => none
-    else if name == "media".toList then (parseAll ExtXMedia.parse args).map fun v => { b with media := some v }
-    else if name == "variants".toList then (parseAll VariantStream.parse args).map fun v => { b with variant_streams := some v }
-    else if name == "sdata".toList then (parseAll ExtXSessionData.parse args).map fun v => { b with session_data := some v }
-    else if name == "skeys".toList then (parseAll ExtXSessionKey.parse args).map fun v => { b with session_keys := some v }
-    else if name == "unk".toList then (allSome (args.map hexArg?)).map fun v => { b with unknown_tags := some v }
-    else none
-
-def buildMasterScript (script : Str) : Option (Res MasterPlaylist) :=
-  let calls := if script.isEmpty then [] else splitAll '\n' script
-  let rec go : List Str → MasterPlaylistBuilder → Option (Res MasterPlaylist)
-    | [], b => some b.build
-    | c :: cs, b =>
-      match masterCall b c with
-      | some b' => go cs b'
-      | none => none
-  go calls {}
-
-/-! ## `build_tag:*` -/
-
 def foldTokens {β} (f : β → Str → Str → Option β) (init : β) (script : Str) : Option β :=
   let toks := if script.isEmpty then [] else tokens script
   toks.foldl (fun acc t =>
@@ -394,6 +363,45 @@ def mediaTagToken (b : ExtXMediaBuilder) (k v : Str) : Option ExtXMediaBuilder :
     | .ok c => some { b with channels := some c }
     | _ => none
   else none
+
+def masterCall (b : MasterPlaylistBuilder) (call : Str) : Option MasterPlaylistBuilder :=
+  match tokens call with
+  | [] => none
+  | name :: args =>
+    if name == "ind".toList then
+      match args with
+      | [a] => (bool01? a).map fun v => { b with has_independent_segments := some v }
+      | _ => none
+    else if name == "start".toList then
+      match args with
+      | [a, c] => (startOf? a c).map fun s => { b with start := some (some s) }
+      | _ => none
+    else if name == "media".toList then (parseAll ExtXMedia.parse args).map fun v => { b with media := some v }
+    else if name == "mediab".toList then
+      -- renditions made with the tag builder: one argument per rendition, its `k=v` tokens joined by `+`
+      (allSome (args.map fun a =>
+        match foldTokens mediaTagToken {} (a.map fun c => if c == '+' then ' ' else c) with
+        | some mb => (match mb.build with
+          | .ok m => some m
+          | _ => none)
+        | none => none)).map fun v => { b with media := some v }
+    else if name == "variants".toList then (parseAll VariantStream.parse args).map fun v => { b with variant_streams := some v }
+    else if name == "sdata".toList then (parseAll ExtXSessionData.parse args).map fun v => { b with session_data := some v }
+    else if name == "skeys".toList then (parseAll ExtXSessionKey.parse args).map fun v => { b with session_keys := some v }
+    else if name == "unk".toList then (allSome (args.map hexArg?)).map fun v => { b with unknown_tags := some v }
+    else none
+
+def buildMasterScript (script : Str) : Option (Res MasterPlaylist) :=
+  let calls := if script.isEmpty then [] else splitAll '\n' script
+  let rec go : List Str → MasterPlaylistBuilder → Option (Res MasterPlaylist)
+    | [], b => some b.build
+    | c :: cs, b =>
+      match masterCall b c with
+      | some b' => go cs b'
+      | none => none
+  go calls {}
+
+/-! ## `build_tag:*` -/
 
 def dateRangeToken (b : ExtXDateRangeBuilder) (k v : Str) : Option ExtXDateRangeBuilder :=
   if k == "id".toList then (hexArg? v).map fun x => { b with id := some x }
